@@ -41,7 +41,14 @@ pub fn c09_timed(run: &mut Run) {
             return;
         }
     };
-    let roots = session_roots(seed ^ 9, 60);
+    let mut roots = session_roots(seed ^ 9, 60);
+    {
+        let mut rng = Rng::stream(seed, 0x57_09);
+        for _ in 0..8 {
+            let p = crate::workload::queen_storm_position(&mut rng);
+            roots.push(History { start: p.clone(), moves: vec![], end: p });
+        }
+    }
     let sessions = tier.pick(16usize, 200);
     let per_session = tier.pick(12usize, 25);
     let res = run_parallel(8, sessions, |sid| {
